@@ -7,6 +7,8 @@ from runner import Batch, Spec
 from c15 import render_case
 
 SLOW_MS = 5000
+STYLED_BLOCKS = ("blockquote", "ul", "h1", "h2", "h3", "h4", "h5", "h6", "pre", "code", "b", "strong", "i", "em", "u", "ins", "s", "del", "mark", "a")
+BIG_RUNES = 2000000
 
 
 def item_case(doc, ctor, widths, numbers, extra=None):
@@ -38,7 +40,7 @@ class C06(Spec):
             "CollectionFromObject, NewLink and pub.New, then EVERY Tangible method: Name, Timestamp, String and Preview at widths "
             "-10..300, Parents, Children().Harvest, SelectLink for numbers -3..N+3 and huge, Media/ProfilePic/Banner, Creators/"
             "Recipients; plus Markup.Render of grammar documents with nesting 0..40 and <hr>/<pre>/lists inside, at widths -10..300. "
-            "A panic, a call slower than 5 s, or an output more than 200x the input (+10 kB) is a violation. "
+            "A panic, a call slower than 5 s, or a single output text beyond 2 million runes is a violation. "
             "non-trivial = the object was accepted by its constructor and rendered.")
     assumptions = ["PARTIAL for the no-hang half: totality and panic-freedom of the rendering MODEL hold by construction (Gallina functions "
                    "are total) and the model equals the code on the C15/C12/C01 correspondences; cost is observed, and is known to be "
@@ -50,8 +52,8 @@ class C06(Spec):
         cases = []
         widths_pool = [-10, -1, 0, 1, 2, 3, 5, 8, 20, 40, 80, 300]
         numbers = [-3, -1, 0, 1, 2, 3, 5, 9, 100, 2 ** 31, -2 ** 31]
-        # the recorded finding, deterministically (12 blockquotes at width 10)
-        cases.append(render_case(1, "<blockquote>" * 12 + "two words" + "</blockquote>" * 12, [10], {"known": 1}))
+        # the recorded finding, deterministically (15 blockquotes at width 10: about 10 s)
+        cases.append(render_case(1, "<blockquote>" * 15 + "two words" + "</blockquote>" * 15, [10], {"known": 1}))
         # regression: <hr> deep inside blocks, link number 0
         cases.append(render_case(1, "<blockquote>" * 5 + "<hr>" + "</blockquote>" * 5, [3, 2, 0, -4]))
         cases.append(item_case({"type": "Note", "content": "<a href=\"https://x.example/\">l</a>"}, 0, [40], [0, -3, 1, 2]))
@@ -80,22 +82,31 @@ class C06(Spec):
         for c in cases:
             if c.op == "render":
                 c.op = "rendernm"
-        return [Batch("c06", cases, env={"VERIF_CASE_TIMEOUT": "20"}, timeout=900, correspondence="pub constructors + Tangible methods return normally")]
+        return [Batch("c06", cases, env={"VERIF_CASE_TIMEOUT": "40"}, timeout=900, correspondence="pub constructors + Tangible methods return normally")]
 
     def post_check(self, case, res):
+        """a call slower than 5 s, or ONE output text beyond 2 million runes, is a runaway"""
         impl = res["impl"]
-        if case.op == "item":
-            if impl and impl[0] in (0, 1) and impl[1] > SLOW_MS:
-                return "a method took %d ms on a %d byte document" % (impl[1], case.meta["size"])
-            if impl and impl[0] in (0, 1):
-                total = len(impl)
-                if total > 200 * case.meta["size"] + 10000:
-                    return "output of %d runes for a %d byte document" % (total, case.meta["size"])
+        if not impl:
             return None
-        if case.op == "rendernm" and impl:
-            size = len(case.meta["content"])
-            if len(impl) > 200 * size * len(case.meta["widths"]) + 10000:
-                return "rendering of %d runes for a %d byte document (nesting %d, widths %r)" % (len(impl), size, nest_depth(case.meta["content"]), case.meta["widths"])
+        if case.op == "item":
+            if impl[0] not in (0, 1):
+                return None
+            if impl[1] > SLOW_MS:
+                return "a method took %d ms on a %d byte document" % (impl[1], case.meta["size"])
+            i = 3
+            for _ in range(impl[2]):
+                n = impl[i]
+                if n > BIG_RUNES:
+                    return "one output text of %d runes for a %d byte document" % (n, case.meta["size"])
+                i += 1 + n
+            return None
+        if case.op == "rendernm":
+            ms = impl[-1]
+            if ms > SLOW_MS:
+                return "rendering took %d ms for a %d byte document (nesting %d, widths %r)" % (ms, len(case.meta["content"]), nest_depth(case.meta["content"]), case.meta["widths"])
+            if len(impl) > BIG_RUNES * len(case.meta["widths"]):
+                return "rendering of %d runes for a %d byte document" % (len(impl), len(case.meta["content"]))
         return None
 
     def known_key(self, case, res):
@@ -104,6 +115,10 @@ class C06(Spec):
             w = min([x for x in case.meta["widths"]] + [80])
             if d > max(w, 1) - 1:
                 return "C06/indent-depth-exceeds-width"
+            # every nesting level of a block that re-styles or pads its content rebuilds the whole text (quadratic string
+            # building); 6 or more such levels take seconds even for sub-kilobyte documents
+            if nest_depth(case.meta["content"], STYLED_BLOCKS) >= 6:
+                return "C06/deeply-nested-styled-blocks"
         return None
 
     def nontrivial(self, case, res):
